@@ -80,7 +80,8 @@ Definition n10 : num := NFin 5 1.
    0 lambda x: x == 1                 1 lambda x: x > 0   (numbers only, else raises)
    2 lambda x, a, b: a <= x <= b with (1, 5)  (numbers only)
    3 lambda x: len(x) > 1  (str, dict)          4 lambda x: True
-   5 Range(0, 1).contains   6 Range(5, 9).contains   (two bound methods of ONE class: lo <= x <= hi, numbers only) *)
+   5 Range(0, 1).contains   6 Range(5, 9).contains   (two bound methods of ONE class: lo <= x <= hi, numbers only)
+   7 operator.ge with (2,)  (numbers only)      8 operator.ne with (1,)  (total) *)
 Definition n9 : num := NFin 9 0.
 Definition in_range (lo hi x : num) : bool := (num_ltb lo x || num_eqb lo x) && (num_ltb x hi || num_eqb x hi).
 Definition t_tenv (id : N) (v : value) : option bool :=
@@ -96,7 +97,9 @@ Definition t_tenv (id : N) (v : value) : option bool :=
            | _ => None end
   | 4%N => Some true
   | 5%N => match v with VNum x => Some (in_range n0 n1 x) | _ => None end
-  | _ => match v with VNum x => Some (in_range n5 n9 x) | _ => None end
+  | 6%N => match v with VNum x => Some (in_range n5 n9 x) | _ => None end
+  | 7%N => match v with VNum x => Some (num_ltb n2 x || num_eqb n2 x) | _ => None end
+  | _ => Some (negb (value_eqb v (VNum n1)))
   end.
 
 Definition twinE : env := mkEnv t_menv t_tenv t_rmatch t_rsearch.
